@@ -137,6 +137,11 @@ def run(ck):
         if got != expect[nm]:
             ck.violation(f"{tag}: rows of the real layout satisfiable={got}, property requires {expect[nm]} ({meta[prog][:2]})",
                          {"failing_input_found": True, "program": progs[prog], "template": tag}, key=f"{tag}")
+    for nm, over in composer.second_opinion(ck, jobs, expect, progs, lambda n: info[n][1], "c12_rp",
+                                            lambda n: n.endswith(("_solved", "_other", "_p0", "_bit")) or (n.startswith("selid") and expect.get(n) is False), limit=8 if quick else 40):
+        tag, prog = info[nm]
+        ck.violation(f"{tag}: the REAL prover produced a proof for this assignment and the verifier accepted it ({meta[prog][:2]})",
+                     {"failing_input_found": True, "program": progs[prog], "witness_overrides": {str(i): hx(v) for i, v in over.items()}, "template": tag}, key="accepted:" + tag[:40])
     if (bad or wbad) and not ck.violations:
         if bad:
             name, d = bad[0]
